@@ -5,6 +5,9 @@
 //!        c20 run                      — stdin: `<cfg>\t<sched>[\t…]` lines → `<cfg>\t<sched>\t<observed>`
 //!        c20 one <cfg> <sched>        — replay one schedule (verbose)
 //!        c20 probe                    — mutex-level checks that cannot be expressed as a schedule
+//!        c20 store <quick|thorough>   — op sequences on the template store that fast reload clears (c20_store.inc)
+//!        c20 store one <ops>          — replay one of them
+//!        c20 life <quick|thorough> | life one <ops> — lifetime of the reloader, two reloaders (c20_life.inc)
 //!
 //! cfg  = `f<0|1>.e<0|1>.<thread>.<thread>…`; thread = `R` | `Ac<cb>x<fails><script>` (see MJ/Drive/C20.lean)
 //! sched = one digit per scheduling decision: the thread that runs from its current yield point to
@@ -858,11 +861,25 @@ fn probe() {
     install_yield();
 }
 
+include!("c20_store.inc");
+include!("c20_life.inc");
+
 fn main() {
     quiet_panics();
     install_yield();
     let args: Vec<String> = std::env::args().collect();
     match args.get(1).map(|s| s.as_str()) {
+        Some("life") => {
+            set_yield(None);
+            match args.get(2).map(|s| s.as_str()) {
+                Some("one") => println!("life\t{}\t{}", args[3], life_run(&args[3])),
+                t => life_gen(t.unwrap_or("quick")),
+            }
+        }
+        Some("store") => match args.get(2).map(|s| s.as_str()) {
+            Some("one") => println!("store\t{}\t{}", args[3], store_run(&args[3])),
+            t => store_gen(t.unwrap_or("quick")),
+        },
         Some("gen") => gen_cfgs(args.get(2).map(|s| s.as_str()).unwrap_or("quick")),
         Some("run") => {
             let stdin = std::io::stdin();
